@@ -100,7 +100,16 @@ def run_case(case):
   from fedjax.core import client_datasets as cds
   n, bs, buckets, mode, chain = case['N'], case['B'], case['buckets'], case['mode'], case['chain']
   seed = case.get('seed', 0)
-  pre = cds.BatchPreprocessor(CHAINS[chain])
+  fns_list = list(CHAINS[chain])
+  # the chain may be handed over as any iterable: a list (which the caller extends afterwards), a generator, an iterator
+  how = case.get('fns_as', 'list')
+  pre = cds.BatchPreprocessor({'list': lambda f: f, 'gen': lambda f: (g for g in f), 'iter': iter, 'tuple': tuple,
+                               'append': lambda f: f[:0]}[how](fns_list))
+  if how == 'append':
+    for g in fns_list:
+      pre = pre.append(g)
+  if how == 'list':
+    fns_list.append(lambda x: {**x, 'i': x['i'] * 0})   # the caller's list changes after the preprocessor was built
   if case.get('via'):
     # the dataset is a (stepped / reversed / nested) slice of a larger one; the reference slices the numpy table
     from mc.checks.c04_shuffle_batching import VIAS
@@ -288,6 +297,9 @@ def plan(ctx):
           for mode in ('plain_keep', 'plain_drop'):
             yield {'N': n, 'B': bs, 'buckets': 1, 'mode': mode, 'chain': chain, 'hp': hp, 'seed': ctx.seed}
   ctx.run('seq', gen(), reverse_pass=True)
+  ctx.run('seq', [{'N': n, 'B': bs, 'buckets': k, 'mode': m, 'chain': ch, 'seed': ctx.seed, 'fns_as': fa}
+                  for fa in ('gen', 'iter', 'tuple', 'append') for n in (0, 3, 5, 7) for bs in (1, 2, 4) for ch in ('add_cast', 'cast_add', 'inplace')
+                  for m, k in (('padded', 2), ('plain_keep', 1), ('plain_drop', 1))])
   ctx.run('seq', [{'N': n, 'B': bs, 'buckets': k, 'mode': m, 'chain': ch, 'seed': ctx.seed, 'clone': cl}
                   for cl in ('copy', 'deepcopy', 'pickle') for n in (0, 1, 5, 7) for bs in (1, 2, 4) for ch in ('none', 'cast_add', 'inplace')
                   for m, k in (('padded', 2), ('plain_keep', 1), ('plain_drop', 1))])
